@@ -130,6 +130,12 @@ def getPreviousP (nd : Node) : Option Nat := nd.previousP
 def getNextP (nd : Node) : Option Nat := nd.nextP
 def getPreviousPForRelVar (k : Nat) (nd : Node) : Option PRel := (nd.previousForVars[k]?).join
 def getNextPForRelVar (k : Nat) (nd : Node) : Option PRel := (nd.nextForVars[k]?).join
+/-- `get_previous_p_for_var(var, node)`: `none` = `Err("Variable not present on given node")` -/
+def getPreviousPForVar (v : Nat) (nd : Node) : Option (Option PRel) :=
+  (nd.op.indexOfVar v).map (fun k => getPreviousPForRelVar k nd)
+/-- `get_next_p_for_var(var, node)`: `none` = `Err(…)` -/
+def getNextPForVar (v : Nat) (nd : Node) : Option (Option PRel) :=
+  (nd.op.indexOfVar v).map (fun k => getNextPForRelVar k nd)
 
 /-- `iterate_ops(0, cutoff, 0, count bond)`: walk `next_p` from the head (fuel = cutoff) -/
 def countWalk (c : FastOps) (bond : Nat) : Nat → Option Nat → Nat → Nat
@@ -182,6 +188,12 @@ def varToSubvar (a : Cursor) (v : Nat) : Option Nat :=
   match a.subvarMapping with
   | none => some v
   | some (all, _) => (all[v]?).join
+
+/-- `subvar_to_var` (index panic modelled by variable 0) -/
+def subvarToVar (a : Cursor) (i : Nat) : Nat :=
+  match a.subvarMapping with
+  | none => i
+  | some (_, subvars) => subvars.getD i 0
 
 def lastVar (a : Cursor) (sub : Nat) : Option Nat := (a.lastVars[sub]?).join
 def lastRel (a : Cursor) (sub : Nat) : Option Nat := (a.lastRels[sub]?).join
@@ -394,6 +406,11 @@ def getEmptyArgsVarlist (c : FastOps) (vars : List Nat) : Cursor :=
       (vars.zipIdx.foldl (fun (m : List (Option Nat)) vi => m.set vi.1 (some vi.2))
         (List.replicate c.getNvars none), vars)
     unfilled := (vars.filter (fun v => (c.varEnd v).isSome)).length }
+
+/-- `get_empty_args(SubvarAccess::Args(args))`: only `unfilled` is recomputed -/
+def getEmptyArgsFromArgs (c : FastOps) (a : Cursor) : Cursor :=
+  { a with unfilled := ((List.range a.lastVars.length).filter (fun sub =>
+      (a.lastVar sub).isNone && (c.varEnd (a.subvarToVar sub)).isSome)).length }
 
 /-- first closure of `fill_args_at_p` (ops strictly above `p`… i.e. earlier) -/
 def fillF (p : Nat) (node : Node) (a : Cursor) : Cursor × Bool :=
@@ -665,6 +682,20 @@ def cursorByScan (nvars : Nat) (s : Slots) (p : Nat) (unfilled : Nat) : Cursor :
 
 /-! ## the mutation language (public entry points) -/
 
+/-- which `SubvarAccess` the args of a sub-sweep are built from -/
+inductive ArgSrc where
+  /-- `SubvarAccess::All` -/
+  | all
+  /-- `SubvarAccess::Varlist(vars)` -/
+  | varlist (vars : List Nat)
+
+/-- `get_empty_args(src)`, optionally passed once more through `SubvarAccess::Args` -/
+def FastOps.emptyArgsOf (c : FastOps) (src : ArgSrc) (viaArgs : Bool) : Cursor :=
+  let e := match src with
+    | .all => c.getEmptyArgsAll
+    | .varlist vs => c.getEmptyArgsVarlist vs
+  if viaArgs then c.getEmptyArgsFromArgs e else e
+
 /-- public mutations of a container. `τ` is the accumulator type threaded through callbacks. -/
 inductive Mut (τ : Type) where
   /-- `get_empty_args(All)`, `fill_args_at_p(p)`, `mutate_p` with a callback answering `Some(new)` -/
@@ -675,6 +706,13 @@ inductive Mut (τ : Type) where
   | sweepOps (pstart pend : Nat) (f : FastOps → Op → Nat → τ → Option (Option Op) × τ) (t : τ)
   /-- `set_cutoff` -/
   | setCutoff (k : Nat)
+  /-- `let a = get_empty_args(src); let a = fill_args_at_p(pstart, a);
+  mutate_subsection(pstart, pend, t, f, Some(a))` (the NON-hint fill; `src` = All or a Varlist) -/
+  | sweepArgs (src : ArgSrc) (viaArgs : Bool) (pstart pend : Nat)
+      (f : FastOps → Option Op → τ → Option (Option Op) × τ) (t : τ)
+  /-- the same with `get_empty_args(All)` and `mutate_subsection_ops(…, Some(a))` -/
+  | sweepOpsArgsAll (viaArgs : Bool) (pstart pend : Nat)
+      (f : FastOps → Op → Nat → τ → Option (Option Op) × τ) (t : τ)
 
 /-- run a mutation on the container -/
 def applyC {τ : Type} (c : FastOps) : Mut τ → FastOps
@@ -683,6 +721,10 @@ def applyC {τ : Type} (c : FastOps) : Mut τ → FastOps
   | .sweep ps pe f t => (c.mutateSubsection ps pe t f none).1
   | .sweepOps ps pe f t => (c.mutateSubsectionOps ps pe t f none).1
   | .setCutoff k => c.setCutoff k
+  | .sweepArgs src via ps pe f t =>
+    (c.mutateSubsection ps pe t f (some (c.fillArgsAtP ps (c.emptyArgsOf src via)))).1
+  | .sweepOpsArgsAll via ps pe f t =>
+    (c.mutateSubsectionOps ps pe t f (some (c.fillArgsAtP ps (c.emptyArgsOf .all via)))).1
 
 /-- naive slot array: grow -/
 def growA (s : Slots) (k : Nat) : Slots :=
@@ -715,5 +757,14 @@ def applyA {τ : Type} (nv : Nat) (nb : Option Nat) (s : Slots) : Mut τ → Slo
         | none => (none, (tp.1, tp.2 + 1)))
       ps (min (pe + 1) s.length - ps) s (t, ps)).1
   | .setCutoff k => growA s k
+  | .sweepArgs _ _ ps pe f t => (sweepLoopA nv nb f ps (pe - ps) (growA s pe) t).1
+  | .sweepOpsArgsAll _ ps pe f t =>
+    let s := growA s pe
+    (sweepLoopA nv nb
+      (fun c o (tp : τ × Nat) =>
+        match o with
+        | some op => let r := f c op tp.2 tp.1; (r.1, (r.2, tp.2 + 1))
+        | none => (none, (tp.1, tp.2 + 1)))
+      ps (min (pe + 1) s.length - ps) s (t, ps)).1
 
 end Qmc
